@@ -16,8 +16,10 @@ DRIVER = "drv_c08"
 LEVEL = "proof"
 LEVEL_TEXT = (
     "Lean theorems, for all inputs with no bound: (1) strings - print_string / print_block_string (any width, with and "
-    "without minimize, re-indented by any amount) followed by the lexer return the value character for character; every "
-    "value the lexer produces from a block string literal is block-representable (the hypothesis is forced); "
+    "without minimize, re-indented by any amount) followed by the lexer return the value character for character, for "
+    "every value made of Unicode scalar values and verbatim leading+trailing surrogate pairs (Paired: everything a STRING "
+    "/ BLOCK_STRING token can carry; printString_roundtrip_paired, block_roundtrip_paired, block_indent_roundtrip_paired); "
+    "every value the lexer produces from a block string literal is block-representable (the hypothesis is forced); "
     "is_printable_as_block_string implies block-representable; (2) with the real parser model (C01's crash-faithful "
     "model of parser.py): parse_type(print t) = t for every type tree, parse_value / parse_const_value(print v) = v for "
     "every well-formed value tree in every layout the printer can choose (render_lex for values), and "
@@ -29,10 +31,10 @@ LEVEL_TEXT = (
     "interface / union / enum / input) - including the printer's `query` keyword before a shorthand query that follows "
     "a definition or extension without a block. For the type entry point also with no well-formedness hypothesis "
     "(parse_wf_type: every tree parse_type returns is a typed tree), and for the value / const-value entry points with "
-    "no well-formedness hypothesis on the tree for every source text without surrogate code points (parse_wf_value, "
-    "roundtrip_value_parsed: inversion of the lexer for NAME, INT / FLOAT, STRING and BLOCK_STRING tokens; without the "
-    "hypothesis on the text, parse_wf_value_surrogates: the tree is a typed tree up to string values holding surrogates "
-    "copied verbatim from the text). The converse for documents is proved for its first two layers (arguments, "
+    "no hypothesis on the tree or the source text (parse_wf_value_full, roundtrip_value_parsed_full: whatever "
+    "parse_value / parse_const_value returns for ANY source text - verbatim surrogate pairs inside strings included - "
+    "prints to text that parses back to the same tree, given only no max_tokens and object width >= 4; inversion of the "
+    "lexer for NAME, INT / FLOAT, STRING and BLOCK_STRING tokens, string values are Paired). The converse for documents is proved for its first two layers (arguments, "
     "directives, selection sets, variable definitions, operation and fragment definitions: "
     "parse_wf_selection_set_partial, parse_wf_executable_definition_partial). Not yet: arguments on fragment spreads and "
     "`extend directive` (both behind experimental flags). "
@@ -45,10 +47,10 @@ LEVEL_NOTE = (
     "shared lexer and parser models (Gql/Text/Lexer.lean, Gql/Syntax/Parser.lean; tied by C01/C09's correspondence); the "
     "harness. Not proved: round trip for the remaining document node kinds (arguments on fragment spreads, `extend "
     "directive`) and, for documents beyond operation / fragment definitions (type-system definitions, extensions, the "
-    "keyword dispatch of parse_definition), the converse 'every parsed tree is one of the typed well-formed trees'; for "
-    "values the converse is proved for source texts without surrogate code points (a string value copied from a source "
-    "that holds a surrogate pair verbatim is outside the typed trees; corpus/C08/verbatim_surrogate_pair.json) - "
-    "all covered by the implementation-side round-trip oracle, not by a theorem."
+    "keyword dispatch of parse_definition), the converse 'every parsed tree is one of the typed well-formed trees'; at "
+    "the document level (not for the value entry points any more) string values and descriptions copied from a source "
+    "that holds a surrogate pair verbatim are outside the typed trees (Exec.gdefsWf asks for scalar values; "
+    "corpus/C08/verbatim_surrogate_pair.json) - all covered by the implementation-side round-trip oracle, not by a theorem."
 )
 TECHNIQUE = "Lean 4 proof about executable models + T1 table + differential correspondence + round-trip oracle"
 TRUSTED = [
@@ -62,7 +64,9 @@ ASSUMPTIONS = [
     "WF = image of the parser: names and number texts lexically valid, enum values other than true/false/null, "
     "fragment names other than `on`, non-Const node classes, `None` vs `()` exactly as the parser yields them "
     "(trees with `()`/`None`/`block=None` swapped are checked to print like, and re-parse to, their normal form), "
-    "string values made of Unicode scalar values (a lone surrogate cannot be written in any source text)",
+    "string values made of Unicode scalar values and verbatim leading+trailing surrogate pairs (Val.wfP; proved forced "
+    "for the value entry points: parse_wf_value_full - a lone surrogate cannot be written in any source text); the "
+    "document-level typed trees (Exec.gdefsWf) still take scalar values only",
     "a StringValueNode with block=True is in the domain only if its value is BlockRepresentable (no CR, first and last "
     "line not blank, single line or some line unindented) - proved forced: the lexer produces no other block value "
     "(lex_block_representable); other block values are checked to print and re-parse without an exception, "
@@ -610,7 +614,11 @@ def _run_case(ctx, inp) -> Report:
             if s in print_string(s):
                 rep.failures.append(Failure("print_string-raw-control", "print_string emits a control character unescaped", inp, fw.cps(print_string(s)), "an escape sequence", "C08-1 escape_table_covers_controls"))
     elif kind == "source":
-        _check_source(inp["entry"], inp["flags"], inp["source"], rep.failures)
+        # `source_cps` (space separated code points) for texts JSON cannot hold: verbatim surrogate pairs
+        src = fw.uncps(inp["source_cps"]) if "source_cps" in inp else inp["source"]
+        d = _check_source(inp["entry"], inp["flags"], src, rep.failures)
+        if inp.get("must_parse") and d is None and not rep.failures:
+            rep.failures.append(Failure("corpus-source-rejected", "a stored source text no longer parses", inp, "GraphQLSyntaxError", "a tree", "C08 roundtrip_value_parsed_full"))
         rep.evaluations += 1
     elif kind in ("wire", "wire-variant", "wire-outside-wf"):
         from tools.astwire import from_wire
